@@ -135,7 +135,7 @@ def run_scenario(ctx, idx, scn, schedules, max_events, timeout):
             os.makedirs(w, exist_ok=True)
             spec = {"scenario": with_mediator(scn, "multi_process_mediator", cores), "workdir": w, "seed": seed,
                     "out": os.path.join(w, "log.json"), "max_events": max_events, "delays": delays, "invert": invert,
-                    "schedule": k, "after_release_ms": rel, "slow_out_states": slow}
+                    "schedule": k, "after_release_ms": rel, "slow_out_states": slow, "debug_logging": k % 5 == 4}
             return k, launch("mp", spec, timeout)
         with ThreadPoolExecutor(3) as ex:
             for k, (R, st) in ex.map(one, range(len(schedules))):
@@ -151,6 +151,8 @@ def run_scenario(ctx, idx, scn, schedules, max_events, timeout):
                     res.append(("inconclusive", f"{label} schedule {k}: {st}"))
                     continue
                 res.append(("count", "schedules_run", 1))
+                if k % 5 == 4:
+                    res.append(("count", "schedules_run_with_debug_logging", 1))
                 if R["error"]:
                     res.append(("violation", "C20:multi-process-run-raises",
                                 f"[{label}, {cores} cores, schedule {k}] {R['error'][:400]}", wit))
